@@ -83,6 +83,26 @@ def run(chk, tier):
         t = op.split(" ")
         chk.case((t[1], t[2], t[3]), nontrivial=(set(t[2]) != {"0"}))
     chk.run_family(BACKEND_CFGS if quick else BACKEND_CFGS + ["cpuoff-release"], hot, oracle=oracle)
+    # encrypt-only / decrypt-only halves keyed independently with the same key: XDec.dec(XEnc.enc(b)) = b and
+    # XEnc.enc(XDec.dec(b)) = b (the halves are separate types with their own constructors: a decrypt-only type whose
+    # `new` derives its keys wrongly is not seen by any combined-type round trip)
+    names = {e["name"]: e for e in reg}
+    halves = [(n, n[:-3] + "Dec") for n in names if n.endswith("Enc") and n[:-3] + "Dec" in names]
+    hops = []
+    for en, dn in halves:
+        e = names[en]
+        for i in range(8 if quick else 300):
+            k = r_k = chk.rng.structured(e["ks"]) if i % 3 == 0 else chk.rng.bytes(e["ks"])
+            b = chk.rng.bytes(e["bl"])
+            hops.append(f"enc {en} {hx(k)} {hx(b)}")
+            hops.append(f"dec {dn} {hx(k)} {hx(b)}")
+            chk.case(("halves", en, hx(k), hx(b)), nontrivial=any(k))
+
+    def half_inv(op, out):
+        t = op.split(" ")
+        other = t[1][:-3] + ("Dec" if t[0] == "enc" else "Enc")
+        return f"{'dec' if t[0] == 'enc' else 'enc'} {other} {t[2]} {out}", t[3]
+    two_stage(chk, ["default", "cpuoff", "forcesoft", "kuzsoft"] if quick else BACKEND_CFGS + ["default"], hops, half_inv, "halves")
     # the 32-bit fixsliced AES backend (the repository's file, executed through #[path]): both orders, normal and compact
     from . import fs32
     fs32.run(chk, 12 if quick else 400, oracle_native=False, per_block=False)
@@ -117,4 +137,4 @@ def run(chk, tier):
     def wb_inv(op, out):
         t = op.split(" ")
         return f"wblock {'dec' if t[1] == 'enc' else 'enc'} {t[2]} {out}", t[3]
-    two_stage(chk, cfgs, wb, wb_inv, "wblock")
+    two_stage(chk, cfgs + ["allfeat"], wb, wb_inv, "wblock")   # incl. the build with the optional features (zeroize-gated code in wblock)
